@@ -167,8 +167,10 @@ def chk_case(inp, c):
         w_dom = oracles.step_weights(filters.shape[1], 1.0, True)
         Eor, _ = oracles.capture_oracle(sig ** 2, sources ** 2, w_dom)     # (n, m)
         Eps_model = Eor.T
-    est = c.call(dreye.ReceptorEstimator, filters, domain=1.0, _where="ReceptorEstimator", **kw0)
-    c.call(est.register_system, sources, lb=inp["lb"], ub=inp["ub"], _where="register_system")
+    est = inp.get("_live_estimator")
+    if est is None:
+        est = c.call(dreye.ReceptorEstimator, filters, domain=1.0, _where="ReceptorEstimator", **kw0)
+        c.call(est.register_system, sources, lb=inp["lb"], ub=inp["ub"], _where="register_system")
     if ek == "uncertainty":
         E = np.asarray(est.Epsilon)
         c.require(E.shape == (m, n) and np.all(np.abs(E - Eps_model) <= 1e-10 * np.abs(Eps_model) + 1e-300),
@@ -287,4 +289,65 @@ def chk_case(inp, c):
     c.note("first_row", {"x": X[0], "B_var": Bv[0], "eps_kind": ek})
 
 
-M.add("min_variance", gen_case, chk_case, weight=1, min_held=120)
+M.add("min_variance", gen_case, chk_case, weight=5, min_held=120)
+
+
+def gen_rereg(rng, i):
+    s = gen_case(rng, i)
+    s["rereg_seed"] = int(rng.integers(0, 2 ** 31 - 1))
+    if s["epskind"] == "uncertainty":          # the live estimator is built without filter uncertainty
+        s["epskind"] = "heteroscedastic"
+    return s
+
+
+def chk_rereg(inp, c):
+    """Variance minimisation uses the CURRENTLY registered system: ask, change one registration on the same estimator, ask
+    again and judge the second answer against the new values."""
+    gen.rereg_check(c, dreye, inp, lambda est: est.minimize_variance(inp["B"], solver=cp.CLARABEL), chk_case)
+
+
+M.add("min_variance_after_reregistration", gen_rereg, chk_rereg, weight=1, min_held=20)
+
+
+def gen_internal(rng, i):
+    s = gen_case(rng, i)
+    s["l1kind"], s["L1"] = "none", None
+    if s["epskind"] == "uncertainty":
+        s["epskind"] = "heteroscedastic"
+    return s
+
+
+def chk_internal(inp, c):
+    """Registered-target mode: register_targets(B); fit(); minimize_variance()  -- the estimator then holds the fitted
+    captures as its targets, and minimize_variance() without arguments must answer for THOSE targets exactly as
+    minimize_variance(B_registered) does."""
+    ok, info = gen.regime_report(inp["A"], inp["lb"], inp["ub"], inp["K"], inp["baseline"], inp["B"])
+    if not ok:
+        c.unmet("outside the well-scaled regime")
+    est = c.call(gen.make_estimator, dreye, inp, _where="ReceptorEstimator+register_system")
+    kw = dict(solver=cp.CLARABEL)
+    c.call(est.register_targets, inp["B"].copy(), _where="register_targets")
+    c.call(est.fit, _where="fit()", **kw)
+    Breg = np.array(est.B, dtype=float)           # the targets registered now: the fitted captures
+    args = dict(l2_eps=inp["l2_eps"])
+    if inp["epskind"] == "explicit":
+        args["Epsilon"] = inp["Eps"].copy()
+    r = c.call(est.minimize_variance, _where="minimize_variance() [registered targets]", **args, **kw)
+    c.require(r is est, "minimize_variance() without targets returns the estimator", mechanism="internal-returns-self")
+    Xi, Bi = np.asarray(est.X, float), np.asarray(est.B, float)
+    fresh = c.call(gen.make_estimator, dreye, inp, _where="fresh ReceptorEstimator")
+    Xe, Be, Ve = c.call(fresh.minimize_variance, Breg.copy(), _where="minimize_variance(B) [explicit, fresh estimator]", **args, **kw)
+    sc = 1.0 + float(np.max(np.abs(Be)))
+    c.cell("internal-mode")
+    c.require(Bi.shape == np.shape(Be) and np.all(np.abs(Bi - Be) <= 2e-3 * sc + 2 * inp["l2_eps"]),
+              "registered-target mode gives the same captures as the explicit call for the same targets",
+              mechanism="internal-vs-explicit", max_dev=float(np.max(np.abs(Bi - Be))) if Bi.shape == np.shape(Be) else None)
+    Mt, c0, lbv, ubv = gen.sys_arrays(inp)
+    err = np.linalg.norm(Xi @ Mt.T + c0 - Breg, axis=1)
+    c.require(np.all(err <= inp["l2_eps"] + 2e-3), "registered-target mode keeps the fit quality for the registered (fitted, in-gamut) targets",
+              mechanism="internal-fit-quality-lost", worst=float(np.max(err)), l2_eps=inp["l2_eps"])
+    c.nontrivial()
+    c.note("internal_vs_explicit_max_dev", float(np.max(np.abs(Bi - Be))))
+
+
+M.add("registered_target_mode", gen_internal, chk_internal, weight=1, min_held=20)
